@@ -32,8 +32,10 @@ type Config struct {
 	BlockSize      int    `json:"blocksize,omitempty"`
 	WALFailover    bool   `json:"walfailover,omitempty"`
 	TableStats     bool   `json:"tablestats,omitempty"` // table statistics collection on (enables delete-only / elision-only compactions)
+	AutoL0         bool   `json:"autol0,omitempty"`      // automatic compactions on, Pebble's default thresholds except L0CompactionThreshold = 1
 	AutoDefault    bool   `json:"autodefault,omitempty"` // automatic compactions on with Pebble's DEFAULT thresholds (no forced L0 compaction)
 	TinyLBase      bool   `json:"tinylbase,omitempty"`   // LBaseMaxBytes=1 with MANUAL compactions only: data comes to rest in intermediate levels
+	DelOnlyExcise  bool   `json:"delonlyexcise,omitempty"` // delete-only compactions may excise the covered prefix/suffix of a table
 	DeepQueue      bool   `json:"deepqueue,omitempty"`     // MemTableStopWritesThreshold 1000: held flushes never stall writers
 	SharedCaches   bool   `json:"sharedcaches,omitempty"` // the harness passes its own block cache and file cache (kept referenced across Close)
 }
@@ -43,7 +45,7 @@ func (c Config) Options(fs vfs.FS) *pebble.Options {
 	o := &pebble.Options{
 		FS:                          fs,
 		Comparer:                    testkeys.Comparer,
-		DisableAutomaticCompactions: !(c.AutoCompact || c.AutoDefault),
+		DisableAutomaticCompactions: !c.Auto(),
 		FormatMajorVersion:          pebble.FormatNewest,
 		MemTableSize:                256 << 10,
 		L0CompactionThreshold:       l0Threshold(c),
@@ -78,6 +80,9 @@ func (c Config) Options(fs vfs.FS) *pebble.Options {
 	}
 	if c.DeepQueue {
 		o.MemTableStopWritesThreshold = 1000
+	}
+	if c.DelOnlyExcise {
+		o.EnableDeleteOnlyCompactionExcises = func() bool { return true }
 	}
 	if c.L0Sublevels {
 		o.FlushSplitBytes = 1
@@ -551,11 +556,14 @@ func l0Threshold(c Config) int {
 	if c.AutoDefault {
 		return 4 // Pebble's default
 	}
+	if c.AutoL0 {
+		return 1
+	}
 	return 1000
 }
 
 // Auto reports whether background compactions are enabled in this configuration.
-func (c Config) Auto() bool { return c.AutoCompact || c.AutoDefault }
+func (c Config) Auto() bool { return c.AutoCompact || c.AutoDefault || c.AutoL0 }
 
 // PadKey is the key a Big batch writes its padding value to; it sorts after every key and span
 // the alphabets use.
